@@ -57,6 +57,8 @@ class Term:
             s = set()
             if self.op in ("fresh", "phi"):
                 s.add(self.args[0])  # (fn_id, block)
+            elif self.op in ("iternext", "iterstate"):
+                s.add(self.args[1])  # defined at the site of the `next` call
             for c in self.children():
                 s |= c.syms()
             self._syms = frozenset(s)
